@@ -311,7 +311,7 @@ class Discharger:
             if r.info.j["path"] == "std::ops::RangeTo":
                 ok = False
                 for b in bound:
-                    if b.kind == "call" and b.callee is not None and re.search(r"(Read::read|AsyncRead::poll_read|Write::write|AsyncWrite::poll_write)$", b.callee.path) \
+                    if b.kind == "call" and b.callee is not None and re.search(r"(Read::read|AsyncRead::poll_read|AsyncReadExt::read|Write::write|AsyncWrite::poll_write|AsyncWriteExt::write)$", b.callee.path) \
                             and b.path[-2:] == (("v", "Ok"), ("f", "0")):
                         rb = prog.resolve_op(b.body, b.term.args[-1], IDENT, b.blk)
                         if rb == base:
